@@ -247,6 +247,11 @@ class DesignSpace:
         self.__norm_current_value = {}
         self.__norm_current_value_array = array([])
 
+    def __clear_normalized_current_value(self) -> None:
+        """Reset the normalized current value, which depends on the bounds."""
+        self.__norm_current_value = {}
+        self.__norm_current_value_array = array([])
+
     def __update_current_status(self) -> None:
         """Update the availability of current design values for all the variables."""
         if (
@@ -1672,6 +1677,7 @@ class DesignSpace:
         self._variables[name].lower_bound = lower_bound
         self._add_norm_policy(name)
         self.__norm_data_is_computed = False
+        self.__clear_normalized_current_value()
 
     def set_upper_bound(
         self,
@@ -1692,6 +1698,7 @@ class DesignSpace:
         self._variables[name].upper_bound = upper_bound
         self._add_norm_policy(name)
         self.__norm_data_is_computed = False
+        self.__clear_normalized_current_value()
 
     def convert_array_to_dict(
         self,
@@ -2371,3 +2378,4 @@ class DesignSpace:
                     self._add_norm_policy(name)
 
             self.__norm_data_is_computed = False
+            self.__clear_normalized_current_value()
